@@ -95,6 +95,60 @@ func metaStdouts(name string) []labelled {
 	add("type:name-number", `{"name":5,"description":"d","version":"1","url":"u","supportedContractVersions":["1.0"],"capabilities":["x"]}`)
 	add("type:caps-string", `{"name":"`+name+`","description":"d","version":"1","url":"u","supportedContractVersions":["1.0"],"capabilities":"x"}`)
 	add("empty-object", "{}")
+	// the supported contract version / an odd element at every position of the list
+	odd := []string{"2.0", "", "1.0 ", "1", "0.9", "1.0.0", "01.0", "1.00"}
+	for n := 1; n <= 4; n++ {
+		for pos := 0; pos < n; pos++ {
+			l := make([]string, n)
+			for k := range l {
+				l[k] = odd[(k+pos+n)%len(odd)]
+			}
+			m := validMetaMap(name)
+			m["supportedContractVersions"] = l
+			add(fmt.Sprintf("cvpos:none:%d/%d", pos, n), mj(m)) // only near misses
+			l2 := append([]string(nil), l...)
+			l2[pos] = "1.0"
+			m = validMetaMap(name)
+			m["supportedContractVersions"] = l2
+			add(fmt.Sprintf("cvpos:hit:%d/%d", pos, n), mj(m))
+		}
+	}
+	for pos := 0; pos < 3; pos++ {
+		l := []string{"SIGNATURE_GENERATOR.RAW", "SIGNATURE_VERIFIER.TRUSTED_IDENTITY", "SIGNATURE_GENERATOR.ENVELOPE"}
+		l[pos] = ""
+		m := validMetaMap(name)
+		m["capabilities"] = l
+		add(fmt.Sprintf("capspos:empty:%d", pos), mj(m))
+	}
+	m = validMetaMap(name)
+	m["capabilities"] = []string{""}
+	add("caps:only-empty-string", mj(m))
+	// rarely used legal (and nearly legal) JSON
+	esc := ""
+	for _, r := range name {
+		esc += fmt.Sprintf("\\u%04x", r)
+	}
+	add("rare:name-unicode-escapes", strings.Replace(v, `"name":"`+name+`"`, `"name":"`+esc+`"`, 1))
+	add("rare:key-unicode-escape", strings.Replace(v, `"name"`, `"n\u0061me"`, 1))
+	add("rare:name-trailing-nul", strings.Replace(v, `"name":"`+name+`"`, `"name":"`+name+`\u0000"`, 1))
+	add("rare:name-fullwidth", strings.Replace(v, `"name":"`+name+`"`, `"name":"\uff46`+name[1:]+`"`, 1))
+	add("rare:crlf-tabs", strings.NewReplacer(",", ",\r\n\t", ":", " :\t").Replace(v))
+	add("rare:bom", "\xef\xbb\xbf"+v)
+	add("rare:dup-cvs-last-wrong", v[:len(v)-1]+`,"supportedContractVersions":["2.0"]}`)
+	add("rare:dup-cvs-last-right", strings.Replace(v, `"supportedContractVersions":["1.0"]`, `"supportedContractVersions":["2.0"]`, 1)[:len(v)-1]+`,"supportedContractVersions":["1.0"]}`)
+	add("rare:dup-caps-last-empty", v[:len(v)-1]+`,"capabilities":[]}`)
+	add("rare:dup-url-last-empty", v[:len(v)-1]+`,"url":""}`)
+	add("rare:dup-url-last-null", v[:len(v)-1]+`,"url":null}`)
+	add("type:name-array", strings.Replace(v, `"name":"`+name+`"`, `"name":["`+name+`"]`, 1))
+	add("type:name-object", strings.Replace(v, `"name":"`+name+`"`, `"name":{"v":"`+name+`"}`, 1))
+	add("type:cvs-object", strings.Replace(v, `["1.0"]`, `{"1.0":true}`, 1))
+	add("type:cvs-numbers", strings.Replace(v, `["1.0"]`, `[1.0]`, 1))
+	add("type:cvs-nested", strings.Replace(v, `["1.0"]`, `[["1.0"]]`, 1))
+	add("type:cvs-null-element", strings.Replace(v, `["1.0"]`, `[null,"1.0"]`, 1))
+	add("nonjson:single-quotes", strings.ReplaceAll(v, `"`, `'`))
+	add("nonjson:trailing-comma", v[:len(v)-1]+`,}`)
+	add("nonjson:comment", "// reply\n"+v)
+	add("nonjson:value-then-newline-value", v+"\n"+`{"name":"zzz"}`)
 	return out
 }
 
@@ -120,6 +174,8 @@ func otherStdouts(cmd int) []labelled {
 		{"valid", v}, {"valid:trailing-newline", v + "\n"}, {"empty-object", "{}"}, {"type:null", "null"},
 		{"empty", ""}, {"nonjson:text", "done."}, {"nonjson:truncated", v[:len(v)-3]}, {"nonjson:garbage-after", v + "}"},
 		{"type:array", "[]"}, {"type:field", typeErr},
+		{"nonjson:two-values", v + v}, {"nonjson:value-newline-value", v + "\n{}"}, {"rare:bom", "\xef\xbb\xbf" + v},
+		{"rare:dup-last-null", v[:len(v)-1] + "," + v[1:strings.Index(v, ":")] + ":null}"},
 	}
 }
 
@@ -158,6 +214,19 @@ func stderrs(rng *Rng) []labelled {
 	add("nonjson:ws", "\n")
 	add("nonjson:log-then-json", "WARN x\n"+`{"errorCode":"ERROR"}`)
 	add("nonjson:json-then-log", `{"errorCode":"ERROR"}`+"\nWARN x")
+	add("rare:dup-code-last-empty", `{"errorCode":"ERROR","errorCode":""}`)
+	add("rare:dup-code-first-empty", `{"errorCode":"","errorCode":"THROTTLED","errorMessage":"dup"}`)
+	add("rare:message-null", `{"errorCode":"ERROR","errorMessage":null}`)
+	add("rare:code-null-message", `{"errorCode":null,"errorMessage":"only message, null code"}`)
+	add("rare:unicode-escaped-key", `{"errorC\u006fde":"TIMEOUT"}`)
+	add("rare:metadata-empty-key", `{"errorMetadata":{"":""}}`)
+	add("rare:ws-inside", "{\r\n\t\"errorCode\" :\t\"ERROR\"\r\n}\r\n")
+	add("rare:bom", "\xef\xbb\xbf"+`{"errorCode":"ERROR"}`)
+	add("nonjson:two-values", `{"errorCode":"ERROR"}{"errorCode":"TIMEOUT"}`)
+	add("nonjson:value-newline-value", `{"errorCode":"ERROR"}`+"\n"+`{"errorCode":"TIMEOUT"}`)
+	add("type:message-object", `{"errorCode":"ERROR","errorMessage":{"text":"x"}}`)
+	add("type:metadata-array", `{"errorCode":"ERROR","errorMetadata":["a"]}`)
+	add("type:metadata-nonstring-value", `{"errorCode":"ERROR","errorMetadata":{"a":1}}`)
 	add("type:code-number", `{"errorCode":5}`)
 	add("type:array", `[]`)
 	add("type:string", `"ERROR"`)
@@ -277,6 +346,88 @@ func genProc(rng *Rng, tier string) []*procCase {
 		c.Out = validStdout(cmd, c.Name)
 		c.SleepMs, c.DeadlineMs = 150+rng.Intn(200), 8000
 		add(c)
+	}
+	// C2. contexts WITHOUT a deadline, every command
+	for cmd := 0; cmd < 5; cmd++ {
+		// WithCancel, cancelled while the plugin is still running (silent plugin)
+		c := base("timing:cancel-later", cmd)
+		c.Out = validStdout(cmd, c.Name)
+		c.SleepMs, c.DeadlineMs, c.Cancel = 16000, 1300+rng.Intn(400), true
+		add(c)
+		// ... and a descendant keeps the pipes
+		c = base("timing:cancel-later+descendant", cmd)
+		c.Out = validStdout(cmd, c.Name)
+		c.SleepMs, c.DeadlineMs, c.Cancel, c.DescMs = 16000, 1300+rng.Intn(400), true, 16000
+		add(c)
+		// context.Background, clean exit with a valid reply, descendant keeps the pipes
+		c = base("timing:background-descendant", cmd)
+		c.Out = validStdout(cmd, c.Name)
+		c.DescMs = 16000
+		add(c)
+		// WithCancel that is never cancelled during the call, same plugin
+		c = base("timing:cancel-unused-descendant", cmd)
+		c.Out = validStdout(cmd, c.Name)
+		c.DescMs, c.DeadlineMs, c.Cancel = 16000, 30000, true
+		add(c)
+		// a far deadline, same plugin
+		c = base("timing:far-deadline-descendant", cmd)
+		c.Out = validStdout(cmd, c.Name)
+		c.DescMs, c.DeadlineMs = 16000, 30000
+		add(c)
+		// the context is already done when the call is made: nothing is started
+		c = base("timing:already-done", cmd)
+		c.Out = validStdout(cmd, c.Name)
+		c.SleepMs, c.DeadlineMs, c.Cancel = 16000, 0, cmd%2 == 0
+		add(c)
+	}
+	// H. histories: ONE CLIPlugin instance, the plugin changes its behaviour between the calls
+	group := 0
+	type step struct {
+		cmd      int
+		out, err string
+		exit     int
+	}
+	hist := func(label string, name string, steps []step) {
+		group++
+		for k, st := range steps {
+			c := base("history:"+label, st.cmd)
+			c.Name = name
+			c.Group, c.Step = group, k
+			c.Out, c.Err, c.Exit = st.out, st.err, st.exit
+			add(c)
+		}
+	}
+	serrA := `{"errorCode":"ACCESS_DENIED","errorMessage":"first failure"}`
+	serrB := `{"errorCode":"THROTTLED","errorMessage":"second failure"}`
+	{
+		nm := Pick(rng, pluginNames)
+		ok := validStdout(0, nm)
+		wrong := validStdout(0, "zzz")
+		mm := validMetaMap(nm)
+		delete(mm, "url")
+		nourl := mj(mm)
+		mm = validMetaMap(nm)
+		mm["supportedContractVersions"] = []string{"2.0"}
+		badcv := mj(mm)
+		big := ok + strings.Repeat(" ", 150000)
+		hist("meta:ok-wrongname-ok-silentfail", nm, []step{{0, ok, "", 0}, {0, wrong, "", 0}, {0, ok, "", 0}, {0, ok, "", 1}})
+		hist("meta:ok-error-silentfail-ok", nm, []step{{0, ok, "", 0}, {0, "", serrA, 1}, {0, "", "", 2}, {0, ok, "", 0}})
+		hist("meta:error-ok-nonjson-ok", nm, []step{{0, "", serrA, 1}, {0, ok, "", 0}, {0, "not json", "", 0}, {0, ok, "", 0}})
+		hist("meta:ok-nourl-ok-badcv", nm, []step{{0, ok, "", 0}, {0, nourl, "", 0}, {0, ok, "", 0}, {0, badcv, "", 0}})
+		hist("meta:wrongname-ok-wrongname", nm, []step{{0, wrong, "", 0}, {0, ok, "", 0}, {0, wrong, "", 0}})
+		hist("meta:errorA-errorB-silent-nonjsonerr", nm, []step{{0, ok, serrA, 1}, {0, ok, serrB, 1}, {0, ok, "", 1}, {0, ok, "boom\n", 1}})
+		hist("meta:big-small-empty", nm, []step{{0, big, "", 0}, {0, ok, "", 0}, {0, "", "", 0}, {0, ok, "", 0}})
+		hist("meta:bigerr-silent", nm, []step{{0, "", strings.Repeat("x", 100000), 1}, {0, "", "", 1}, {0, ok, "", 0}})
+		for cmd := 1; cmd < 5; cmd++ {
+			if tier != "thorough" && cmd != 1+rng.Intn(4) && cmd != 2 {
+				continue
+			}
+			v := validStdout(cmd, nm)
+			hist("cmd:ok-silentfail-ok-error-silentfail", nm, []step{{cmd, v, "", 0}, {cmd, v, "", 1}, {cmd, v, "", 0}, {cmd, "", serrB, 3}, {cmd, "", "", 3}})
+			hist("cmd:ok-nonjson-ok", nm, []step{{cmd, v, "", 0}, {cmd, v[:len(v)-2], "", 0}, {cmd, v, "", 0}})
+			// several commands on one instance
+			hist("mixed", nm, []step{{0, ok, "", 0}, {cmd, v, "", 1}, {0, wrong, "", 0}, {cmd, "", serrA, 1}, {0, ok, "", 2}, {cmd, v, "", 0}})
+		}
 	}
 	// D. output larger than the cap (padding is JSON whitespace)
 	bigCmds := []int{0, 1 + rng.Intn(4)}
